@@ -971,6 +971,7 @@ var qcVariants = []string{"QC", "QCPN", "QCCustom", "QCCombo", "Async", "AsyncPN
 // RunGated is the engine behind C01 and C02.
 func RunGated(e *Env) {
 	e.R.Rule = "seeded gated scenarios: variant x cluster size x per-node script (reply/error/silent/skip) x gate release order x quorum function x context-end position; " +
+		"C02 also: storms (8 goroutines of calls needing every node while another goroutine keeps breaking the nodes' streams from the sender side with messages over the send limit): Incomplete only when the nodes shown to the quorum function plus the nodes named in the error cover the configuration, errors + replies = n; " +
 		"distinct = (variant, n, scripts, arrival order observed by the QF, QF, ctx-end position); non-trivial = n>=2 and (>=2 script kinds or permuted order or ctx end)"
 	e.R.Assume("replies are stamped by puppet handlers with (call token, node id, request digest); the oracle trusts those stamps and the QF invocation log recorded inside the harness QuorumSpec")
 	e.R.Assume("an error's arrival at the client is not observable through the API; the oracle accepts every error count consistent with the errors released so far")
@@ -1051,6 +1052,9 @@ func RunGated(e *Env) {
 		}(i)
 	}
 	rwg.Wait()
+	if e.Prop == "C02" {
+		RunStorm(e, "C02")
+	}
 }
 
 // runResetWhileQueued: one node's connection is reset while its request is still queued (sender held at a hook); the request
